@@ -1,11 +1,204 @@
 import Driver.Json
+import OomdModel.Engine
 
-/-! Driver glue for engine `engine` (stub: not built yet). -/
+/-! Driver glue for engine `h_engine` (C02, C05, C06): runs the model on the scenario, compares
+with the implementation's call log (`accepts`), and evaluates the property clauses on the
+implementation's call log with a reference checker that only *checks* (never generates) the
+trace (`holds`).  The scenario field `prop` selects whose clauses decide `holds`. -/
 namespace Driver.Engine
-open Lean
+open Lean OomdModel.Engine
+
+structure TickJ where
+  gap : Nat
+  calls : List (Nat × Call)
+
+def callOf (calls : List (Nat × Call)) (i : Nat) : Call := (calls.lookup i).getD {}
+
+def parseCall (j : Json) : Call :=
+  let a := asArr j
+  let r := match asNat (a.getD 0 Json.null) with | 1 => Ret.stop | 2 => Ret.async | _ => Ret.cont
+  let p := asInt (a.getD 2 Json.null)
+  { ret := r, adv := asNat (a.getD 1 Json.null), pause := if p < 0 then none else some (p.toNat * NS) }
+
+def parseCfg (j : Json) : RsCfg :=
+  let d := jstr j "delay"
+  let h := jstr j "hook_timeout"
+  { rid := jnat j "rid"
+    groups := (jarr j "groups").map fun g => { gid := jnat g "gid", dets := (jarr g "dets").map asNat }
+    actions := (jarr j "actions").map fun a => match a with | Json.obj _ => jnat a "inst" | _ => asNat a
+    delay := (if d.isEmpty then 15 else d.toNat!) * NS
+    hookTimeout := (if h.isEmpty then 5 else h.toNat!) * NS }
+
+def parseTick (j : Json) : TickJ :=
+  let calls := match jobj j "calls" with
+    | Json.obj kvs => kvs.toList.map fun (k, v) => (k.toNat!, parseCall v)
+    | _ => []
+  { gap := jnat j "gap", calls := calls }
+
+/-- implementation event -/
+inductive IEv
+  | p (inst : Nat)
+  | d (inst : Nat) (now : Nat)
+  | a (inst : Nat) (now : Nat) (rs grp : String) (uuid : Int) (deadline : Int) (inv : Bool)
+deriving BEq, Repr
+
+def parseIEv (j : Json) : IEv :=
+  let a := asArr j
+  match asStr (a.getD 0 Json.null) with
+  | "p" => IEv.p (asNat (a.getD 1 Json.null))
+  | "d" => IEv.d (asNat (a.getD 1 Json.null)) (asNat (a.getD 2 Json.null))
+  | _ => IEv.a (asNat (a.getD 1 Json.null)) (asNat (a.getD 2 Json.null)) (asStr (a.getD 3 Json.null))
+      (asStr (a.getD 4 Json.null)) (asInt (a.getD 5 Json.null)) (asInt (a.getD 6 Json.null)) (asBool (a.getD 7 Json.null))
+
+/-- rename uuids by first occurrence among action events (the harness does the same) -/
+def renameUuids (ticks : List (List Ev)) : List (List IEv) :=
+  let step (acc : List Nat × List IEv) (e : Ev) : List Nat × List IEv :=
+    match e with
+    | Ev.prerun i => (acc.1, acc.2 ++ [IEv.p i])
+    | Ev.det i n => (acc.1, acc.2 ++ [IEv.d i n])
+    | Ev.act i n c inv =>
+      let (seen, idx) := match acc.1.idxOf? c.uuid with
+        | some k => (acc.1, k)
+        | none => (acc.1 ++ [c.uuid], acc.1.length)
+      (seen, acc.2 ++ [IEv.a i n s!"r{c.ruleset}" s!"g{c.group}" idx c.deadline inv])
+  let rec go (seen : List Nat) : List (List Ev) → List (List IEv)
+    | [] => []
+    | t :: ts =>
+      let r := t.foldl step (seen, [])
+      r.2 :: go r.1 ts
+  go [] ticks
+
+/-! ### reference checker (property clauses on the implementation trace) -/
+
+structure Abs where
+  pauseUntil : Nat := 0
+  susp : Option (Nat × (String × String × Int × Int)) := none   -- index, ctx
+  seen : List Int := []
+
+def takeThrough (sc : Nat → Call) : List Nat → List Nat
+  | [] => []
+  | a :: as => if (sc a).ret == Ret.cont then a :: takeThrough sc as else [a]
+
+def groupFires (sc : Nat → Call) (g : Group) : Bool := g.dets.all fun d => (sc d).ret != Ret.stop
+
+def iNow : IEv → Nat
+  | IEv.d _ n => n
+  | IEv.a _ n _ _ _ _ _ => n
+  | _ => 0
+def iInst : IEv → Nat
+  | IEv.p i => i
+  | IEv.d i _ => i
+  | IEv.a i _ _ _ _ _ _ => i
+
+/-- check one ruleset on one tick; returns violated clauses and the new abstract state -/
+def checkRs (cfg : RsCfg) (sc : Nat → Call) (evs : List IEv) (A : Abs) : List String × Abs := Id.run do
+  let detInsts := cfg.groups.flatMap (·.dets)
+  let dets := evs.filter fun e => match e with | IEv.d i _ => detInsts.contains i | _ => false
+  let acts := evs.filter fun e => match e with | IEv.a i _ _ _ _ _ _ => cfg.actions.contains i | _ => false
+  let pres := evs.filter fun e => match e with | IEv.p i => detInsts.contains i || cfg.actions.contains i | _ => false
+  let mut v : List String := []
+  if pres.map iInst != detInsts ++ cfg.actions then v := v ++ ["C02.all_preruns_run"]
+  if dets.map iInst != detInsts then v := v ++ ["C02.all_detectors_run"]
+  let firedG := cfg.groups.find? (groupFires sc)
+  -- clock reading of the pause test = end of the detector phase
+  let T? : Option Nat := dets.getLast?.map fun e => iNow e + (sc (iInst e)).adv
+  let fireTime? : Option Nat := firedG.bind fun g => (dets.filter fun e => g.dets.contains (iInst e)).getLast?.map fun e => iNow e + (sc (iInst e)).adv
+  -- C05, stated directly: no action before the deadline
+  for e in acts do
+    if iNow e < A.pauseUntil then v := v ++ ["C05.no_action_during_pause"]
+  let paused := match T? with | some T => decide (T < A.pauseUntil) | none => false
+  let startIdx : Option Nat :=
+    if paused then none else match A.susp with
+      | some (i, _) => some i
+      | none => if firedG.isSome then some 0 else none
+  let expected := match startIdx with | none => [] | some i => takeThrough sc (cfg.actions.drop i)
+  let got := acts.map iInst
+  if T?.isSome && got != expected then
+    if paused then v := v ++ ["C05.no_action_during_pause"]
+    else match A.susp with
+      | some (i, _) =>
+        if got.isEmpty then v := v ++ ["C06.resumes_next_tick"]
+        else if got.head? != cfg.actions[i]? then v := v ++ ["C06.resumes_same_action"]
+        else v := v ++ ["C06.then_continue_or_stop"]
+      | none =>
+        if got.isEmpty || expected.isEmpty then
+          v := v ++ [if A.pauseUntil > 0 && got.isEmpty then "C05.actions_resume" else "C02.chain_starts_iff"]
+        else if got.head? != expected.head? then v := v ++ ["C06.clean_after_end"]
+        else v := v ++ ["C02.actions_in_order"]
+  -- contexts
+  let ctxOf : IEv → (String × String × Int × Int) := fun e => match e with
+    | IEv.a _ _ r g u d _ => (r, g, u, d) | _ => ("", "", -1, -1)
+  let mut seen := A.seen
+  match acts.head? with
+  | none => pure ()
+  | some e0 =>
+    let c0 := ctxOf e0
+    if !(acts.all fun e => ctxOf e == c0) then v := v ++ ["C02.context_same_in_chain"]
+    match (if paused then none else A.susp) with
+    | some (_, c) => if c0 != c then v := v ++ ["C06.same_ctx"]
+    | none =>
+      match firedG with
+      | some g =>
+        if c0.1 != s!"r{cfg.rid}" || c0.2.1 != s!"g{g.gid}" then v := v ++ ["C02.context"]
+        if A.seen.contains c0.2.2.1 then v := v ++ ["C06.fresh_uuid"]
+        match fireTime? with
+        | some ft => if c0.2.2.2 != Int.ofNat (ft + cfg.hookTimeout) then v := v ++ ["C06.deadline"]
+        | none => pure ()
+      | none => pure ()
+    if !seen.contains c0.2.2.1 then seen := seen ++ [c0.2.2.1]
+  -- new abstract state from what was observed
+  let mut A' : Abs := { A with seen := seen }
+  match acts.getLast? with
+  | none => pure ()
+  | some e =>
+    let c := sc (iInst e)
+    let tEnd := iNow e + c.adv
+    match c.ret with
+    | Ret.stop =>
+      -- effective delay: the stopping action's own, if it specifies one, else the ruleset's
+      A' := { A' with pauseUntil := tEnd + (c.pause.getD cfg.delay), susp := none }
+    | Ret.async =>
+      let idx := (cfg.actions.idxOf? (iInst e)).getD 0
+      A' := { A' with susp := some (idx, ctxOf e) }
+    | Ret.cont => A' := { A' with susp := none }
+  return (v, A')
+
+def checkAll (cfgs : List RsCfg) : List TickJ → List (List IEv) → List Abs → List String
+  | [], _, _ => []
+  | _, [], _ => ["trace.missing_ticks"]
+  | t :: ts, evs :: rest, As =>
+    let sc := callOf t.calls
+    let rs := (cfgs.zip As).map fun (cfg, A) => checkRs cfg sc evs A
+    -- rulesets in configuration order: the events of ruleset i all precede those of ruleset i+1 (run phase)
+    let runEvs := evs.filter fun e => match e with | IEv.p _ => false | _ => true
+    let owner (e : IEv) : Nat := (cfgs.findIdx? fun c => (c.groups.flatMap (·.dets)).contains (iInst e) || c.actions.contains (iInst e)).getD 0
+    let owners := runEvs.map owner
+    let ordered := (owners.zip (owners.drop 1)).all fun (a, b) => a ≤ b
+    (rs.flatMap (·.1)) ++ (if ordered then [] else ["C02.config_order"]) ++ checkAll cfgs ts rest (rs.map (·.2))
+
+def evJ : IEv → Json
+  | IEv.p i => Json.arr #["p", i]
+  | IEv.d i n => Json.arr #["d", i, n]
+  | IEv.a i n r g u d inv => Json.arr #["a", i, n, r, g, Json.num u, Json.num d, inv]
 
 def handle (j : Json) : Json :=
-  Json.mkObj [("id", Json.str (jstr (jobj j "s") "id")), ("error", Json.str "engine engine not implemented")]
+  let sc := jobj j "s"
+  let tr := jobj j "t"
+  let id := jstr sc "id"
+  let prop := jstr sc "prop"
+  let cfgs := (jarr sc "rulesets").map parseCfg
+  let ticks := (jarr sc "ticks").map parseTick
+  let fixedInv := !(jbool sc "model_unfixed")
+  let model := run fixedInv (initWorld cfgs (1000 * NS)) (ticks.map fun t => { gap := t.gap, sc := callOf t.calls })
+  let m := renameUuids model
+  let impl := (jarr tr "ticks").map fun t => (asArr t).map parseIEv
+  let accepts := m == impl
+  let viol := (checkAll cfgs ticks impl (cfgs.map fun _ => {})).eraseDups
+  let mine := if prop.isEmpty then viol else viol.filter fun c => c.startsWith prop || c.startsWith "trace"
+  let firstDiff := ((m.zip impl).findIdx? fun (a, b) => a != b).getD (min m.length impl.length)
+  verdict id accepts mine.isEmpty mine ""
+    [("all_violated", mkStrs viol), ("first_diff_tick", firstDiff),
+     ("model_tick", Json.arr ((m.getD firstDiff []).map evJ).toArray)]
 
 end Driver.Engine
 
